@@ -43,7 +43,7 @@ class Migration(migrations.Migration):
 ''' % (app, prev, col)
 
 
-def shop_version(K, S, nevo, with_move, nmig):
+def shop_version(K, S, nevo, with_move, nmig, move_sql=False, declares=False):
     """(models source, evolutions, migrations) of shop with the first `nevo` pre-move
     evolutions, optionally the move, and a chain of `nmig` migrations."""
     pre = [('e%d' % i, ["AddField('Item', 'c%d', models.IntegerField, null=True)" % i], ['c%d' % i])
@@ -55,13 +55,20 @@ def shop_version(K, S, nevo, with_move, nmig):
     cols = [c for _l, _m, cs in pre[:nevo] for c in cs]
     migs = None
     if with_move:
-        evos.append({'label': 'e_move', 'mutations_src': [
-            'MoveToDjangoMigrations(mark_applied=%r)' % [mig_name(n) for n in range(1, S + 1)]]})
-        migs = [(mig_name(1), mig_initial('shop', ['c%d' % i for i in range(1, K + 1)]))]
+        move = {'label': 'e_move', 'mutations_src': [
+            'MoveToDjangoMigrations(mark_applied=%r)' % [mig_name(n) for n in range(1, S + 1)]]}
+        if move_sql:
+            # the evolution that hands the app over also changes the schema itself
+            move['mutations_src'].insert(0, "AddField('Item', 'x', models.IntegerField, null=True)")
+        if declares:
+            move['deps'] = {'AFTER_MIGRATIONS': [('mig', mig_name(2))]}
+        evos.append(move)
+        extra = ['x'] if move_sql else []
+        migs = [(mig_name(1), mig_initial('shop', ['c%d' % i for i in range(1, K + 1)] + extra))]
         for n in range(2, nmig + 1):
             migs.append((mig_name(n), mig_add('shop', mig_name(n - 1), 'm%d' % (n - 1))))
         cols = sorted(set(['c%d' % i for i in range(1, K + 1)] + ['m%d' % (n - 1) for n in range(2, nmig + 1)]
-                          + cols))
+                          + cols + extra))
     return models_src(cols), evos, migs, len(pre)
 
 
@@ -100,6 +107,12 @@ def observe(res, app='shop'):
         'sig_method': sig.get('upgrade_method'),
         'sig_applied': sorted(sig.get('applied_migrations') or []),
         'statements': [e['sql'][:80] for e in res['events'] if e['ev'] == 'stmt'],
+        # first statement that gives mig_item its column m1 / shop_item its column x
+        'pos_mig_m1': next((i for i, e in enumerate(res['events'])
+                            if e['ev'] == 'stmt' and 'mig_item' in e['sql'] and '"m1"' in e['sql']), None),
+        'pos_shop_x': next((i for i, e in enumerate(res['events'])
+                            if e['ev'] == 'stmt' and '"x"' in e['sql'] and
+                            ('shop_item' in e['sql'] or 'TEMP_TABLE' in e['sql'])), None),
         'bookkeeping_writes': [e['sql'][:80] for e in res['events'] if e['ev'] == 'book'
                                and not e['sql'].lstrip().upper().startswith('SELECT')],
         'signals': [e['ev'] for e in res['events'] if e['ev'] in ('evolving', 'evolved', 'evolving_failed')],
@@ -140,6 +153,8 @@ def replay(cfg, idx=0, M=3):
         elif kind == 'legacy':
             # the table as 0001_initial would create it, made by hand; nothing on record anywhere
             cols = ''.join(', "c%d" integer NULL' % i for i in range(1, K + 1))
+            if cfg.get('moveSql'):
+                cols += ', "x" integer NULL'
             r = project.run({'action': 'exec_sql', 'app_prefixes': apps, 'statements': [
                 ['CREATE TABLE "shop_item" ("id" integer NOT NULL PRIMARY KEY AUTOINCREMENT, '
                  '"name" varchar(20) NOT NULL%s)' % cols, []],
@@ -155,7 +170,7 @@ def replay(cfg, idx=0, M=3):
                 project.deploy('shop', src, evos)
                 deploy_companions(project, companions, final=False)
                 r = project.run({'action': 'evolve_api', 'app_prefixes': apps})
-            src, evos, migs, _p = shop_version(K, S, P, True, n)
+            src, evos, migs, _p = shop_version(K, S, P, True, n, bool(cfg.get('moveSql')), False)
             project.deploy('shop', src, evos, migrations=migs)
             deploy_companions(project, companions, final=False)
             r = project.run({'action': 'evolve_api', 'app_prefixes': apps})
@@ -165,7 +180,7 @@ def replay(cfg, idx=0, M=3):
             out['start_obs'] = observe(r)
         # --- the version under test
         P = K + (1 if S > 1 else 0)
-        src, evos, migs, _p = shop_version(K, S, P, True, M)
+        src, evos, migs, _p = shop_version(K, S, P, True, M, bool(cfg.get('moveSql')), bool(cfg.get('declares')))
         project.deploy('shop', src, evos, migrations=migs)
         deploy_companions(project, companions, final=True)
         driver = ('cmd', 'api', 'migrate')[idx % 3]
